@@ -27,8 +27,8 @@ int main(void)
   uint8_t type[2] = { 'A', 0 }; msg_init(type, 1); vf_msg_set_compids(&the_msg, t, 1, s, 1);
   m_is_admin = 1; m_auth = 1; m_has_reset = 0; m_has_hbi = 1; m_hbi = 30; m_has_pd = 0; m_has_st = 1; m_st = 1000; m_has_ost = 0;
   uint32_t seq = expected + g;
-  uint8_t d[7]; uint32_t v = seq; for (int q = 6; q >= 0; q--) { d[q] = (uint8_t)('0' + v % 10); v /= 10; }
-  uint8_t raw[12]; uint32_t rawn = raw_seq(raw, d);
+  uint8_t d[ND]; digits_of(d, seq);
+  uint8_t raw[16]; uint32_t rawn = raw_seq(raw, d);
   uint8_t ret = vf_process(SESS, raw, rawn);
   int thrown = __vf_exc_pending; __vf_exc_pending = 0;
   int logout = 0, resend = 0; uint32_t rb = 0;
